@@ -1,39 +1,57 @@
 from .common import COMMON_ASSUME
 
 CFG = {
-    "extra_props_modules": ["RpmVerif.Props.C04Readside"],
+    "extra_props_modules": ["RpmVerif.Props.C04Readside", "RpmVerif.Props.C04Alloc"],
     "cleanup_globs": ["work/c04-mut-*.bin"],
     "props_module": "RpmVerif.Props.C04",
     "required_theorems": ["RpmVerif.C04.split_partition", "RpmVerif.C04.split_bounded", "RpmVerif.C04.split_witness", "RpmVerif.C04.split_declared", "RpmVerif.C04.parser_sees_only_slices", "RpmVerif.C04.parser_alloc_bound",
                           "RpmVerif.C04.parser_calls_prefix", "RpmVerif.C04.parser_calls_faithful", "RpmVerif.C04.parse_depends_on_slices", "RpmVerif.C04.parsePackage_total", "RpmVerif.C04.parseMetadata_total", "RpmVerif.C04.decode_total",
                           "RpmVerif.C04.accepted_count_bounded", "RpmVerif.C04.accepted_sizes_bounded", "RpmVerif.C04.getFileEntries_total",
-                          "RpmVerif.C04.readside_total", "RpmVerif.C04.readerNew_total", "RpmVerif.C04.iterate_total", "RpmVerif.C04.keyIds_total",
-                          "RpmVerif.C04.iterator_no_runaway", "RpmVerif.C04.collectMem_total"],
+                          "RpmVerif.C04.readside_total", "RpmVerif.C04.readerNew_total", "RpmVerif.C04.iterate_total", "RpmVerif.C04.keyIds_total", "RpmVerif.C04.oneIssuer_u32_overflow",
+                          "RpmVerif.C04.iterator_no_runaway", "RpmVerif.C04.collectMem_total",
+                          "RpmVerif.C04.reserve_arg_reading", "RpmVerif.C04.buf_grows_with_input", "RpmVerif.C04.size_rest_is_model", "RpmVerif.C04.reserve_le_remaining",
+                          "RpmVerif.C04.decode_reserve_le", "RpmVerif.C04.reserved_le_input", "RpmVerif.C04.acct_of_accepted", "RpmVerif.C04.decode_kept_le",
+                          "RpmVerif.C04.kept_le_quadratic", "RpmVerif.C04.live_le", "RpmVerif.C04.package_requests_le_input", "RpmVerif.C04.overlap_accepted",
+                          "RpmVerif.C04.linear_bound_refuted", "RpmVerif.C04.harness_limit_refuted"],
     "trivial_branches": [],
     "rule": "every case runs the whole read side (Package::parse, PackageMetadata::parse, all 40 accessors, the Display / Debug impls of Header, IndexEntry, IndexData, Lead and PackageMetadata on the parsed values (stage fmt, into a discarding sink), verify_digests, verify_signature with a "
             "rejecting verifier, signature_key_ids, files() iteration on uncompressed payloads) in a forked child with a panic hook, RLIMIT_AS = 3 GiB, "
-            "a counting allocator flagging any single request above 64 MiB + 16·len, and a Debug-level logger installed; on uncompressed payloads files() is also "
+            "a MEASURING allocator (largest single request, peak of the bytes alive together, cumulative bytes; per stage) whose numbers the driver judges against Spec/Alloc.lean "
+            "(single <= 64 KiB + 64·len, alive <= 64 KiB + 128·len, cumulative <= 1 MiB + 1024·len) and compares with the model's allocation account of the same input "
+            "(Hdr.parsePackageAcct: kept <= measured, measured peak of the parse stages <= 2 x account + 16 KiB), and a Debug-level logger installed; on uncompressed payloads files() is also "
             "drained past error items like collect() does and the number / classes / contents of the items are compared with the state-machine model "
             "(iter=<k>:<classes>:<fnv>; iter=runaway fails). Inputs: boundary-value products "
-            "of intro fields (entries × store size) and of one index entry (type 0..10 × offset −1/0/len−1/len/len+1/i32 extremes × count 0/1/len/len+1/2^31/2^32−1, "
+            "of intro fields (entries × store size) and of one index entry (type 0..10 × offset −1/0/len−1/len/len+1/i32 extremes × count 0/1/len/len+1/2^12/2^16/2^20/2^31/2^32−1, "
             "terminated and unterminated strings) in either header; hostile digest / signature tags; every truncation of two builder-made packages; "
             "single-byte mutations (3 values per position; every 3rd position in quick); hostile cpio headers (name length 0/4096/4097/2^32−1/bad hex, "
             "sizes beyond the archive, stripped magic with indexes 0/1/2/2^31−1/2^32−1); seeded structure-aware damage; thorough adds mutated assets. "
             "Signature blobs made of SEVERAL packets around real signatures of the 5 test keys (junk / garbage in a signature frame / second signature / "
             "trailing packets or unframed bytes / every length format, ~240 blobs): the framing through the hook (pgpframes) and a package carrying the blob "
             "under RSA / DSA / PGP / OPENPGP through the whole allocation-counted read side. "
+            "Since AUDIT2 follow-up 1: stage sigreal = verify_signature with a REAL pgp::Verifier (the Ed25519 test key, loaded before the fork) on every case next to the rejecting one; "
+            "a third base package BUILT AND SIGNED by the library (build_and_sign, Ed25519; digests + OPENPGP + legacy tag in the signature header) for every truncation and the "
+            "single-byte mutations in quick; op hostsrc04: every truncation of the three base packages (and every 12th mutated signed package) once more in the child through the other source kinds / "
+            "entry points — Package::parse on an io::Cursor, Package::open(&Path) and (&str) on a file (default BufReader<File>), Package::parse over BufReader::with_capacity(16, File), "
+            "PackageMetadata::open — predicted by Io.parseChunked / Io.parseMetadataC under the corresponding chunk scripts; a source kind accepting what another rejects fails (source-kinds-differ). "
+            "Op alloc04 (packages of 10^3..10^6 bytes built from seven numbers on both sides): counts 2^12 / 2^16 (thorough: 2^20) on every entry type over stores that are "
+            "empty / short / one element short / exactly long enough, 2^16 empty strings, 4096 index entries, and the OVERLAP family (N entries pointing at the same S store bytes, "
+            "BIN / INT32 / STRING_ARRAY, in either header) up to N x S = 4 MiB from 16.5 KB. "
             "Non-trivial: all; distinct = distinct request lines.",
     "exhaustive": False,
     "shards": {"quick": 8, "thorough": 16},
     "shrink": False,
     "trusted_base": ["dependencies (pgp packet parser, decompressors, nom) are exercised, not modelled",
-                     "the allocation bound is measured by a counting allocator in the harness; the theorem bounds accepted counts and sizes by the input length"],
-    "assumptions": COMMON_ASSUME + ["panic-freedom of dependencies is outside the model (the harness reports any crash with its input)"],
+                     "memory is MEASURED by a counting allocator in the harness and judged against the limits of Spec/Alloc.lean (a reading of 'in proportion': the property gives no number); "
+                     "the theorems bound what the model's account of Header::parse requests (reserve_exact argument and buffer initialiser scraped from the source, sizes of String / IndexEntry of a 64-bit target assumed)",
+                     "allocations of the pgp crate, the decompressors, the accessors and the Display / Debug impls are measured, not modelled"],
+    "assumptions": COMMON_ASSUME + ["panic-freedom of dependencies is outside the model (the harness reports any crash with its input)",
+                                    "keyIds_total / readside_total: SigScheme.IssuerSmall — the OpenPGP layer never reports 2^32 or more issuers for one signature "
+                                    "(the count goes through usize -> u32 with an unwrap, package.rs:309, 352; oneIssuer_u32_overflow shows the panic branch of the model)"],
     "level_text": "Theorems for EVERY byte string: parsing a package or metadata never reaches a panic outcome (the model makes each partial Rust operation an "
                   "explicit panic and proves it unreachable, incl. Lead::parse's unwrap), decoding never panics for any type/offset/count, every accepted entry's "
                   "count is bounded by the store length and index + store fit inside the input, and no accessor (incl. the unreachable!() arms of the list "
                   "accessors and get_file_entries) can panic. The tie and the parts outside the model (dependencies, allocator behaviour, cpio reader, signature "
-                  "code) are exercised by running the real read side on hostile inputs in a child process. Signature blobs: the OpenPGP packets handed to the pgp crate's parser are a partition of the blob, so no declared length exceeds it (split_partition, split_bounded, for every blob; the 104 MB witness of the old code is split_witness); each packet's own header declares exactly the packet's length (split_declared); for ANY packet parser, every byte string parse_signature hands to it is a non-empty contiguous slice of the blob whose declared length is its real length <= the blob (parser_sees_only_slices), all calls together are at most the blob (parser_alloc_bound), the calls are a prefix of the packet list ending at the first signature (parser_calls_prefix, parser_calls_faithful), and the result depends on the parser only through its answers on such slices (parse_depends_on_slices); model tied through the guarded hook pgp_split_packets and, for the first-signature rule, C02's sigpkts correspondence. The correspondence also drains files() past errors (iterator must end) and limits every single allocation to 4 MiB + 16 * input length. The correspondence also drains files() past errors (iterator must end) and limits every single allocation to 4 MiB + 16 * input length. No runaway is now a theorem: iterator_no_runaway — for EVERY behaviour of the payload stream (any decompressor state, any position after an error) a files() iterator over n header files hands out at most n items, collect() ends within n + 1 calls and the iterator is fused from then on (FileIterator::next as a state machine, Model/FileIter.lean); collectMem_total: the items after an error are values or errors too. The drained iteration of uncompressed payloads is predicted exactly (iter=<items>:<Ok/Err classes>:<hash>) from the accessor model's file list and the in-memory stream positions every error path leaves.",
+                  "code) are exercised by running the real read side on hostile inputs in a child process. Signature blobs: the OpenPGP packets handed to the pgp crate's parser are a partition of the blob, so no declared length exceeds it (split_partition, split_bounded, for every blob; the 104 MB witness of the old code is split_witness); each packet's own header declares exactly the packet's length (split_declared); for ANY packet parser, every byte string parse_signature hands to it is a non-empty contiguous slice of the blob whose declared length is its real length <= the blob (parser_sees_only_slices), all calls together are at most the blob (parser_alloc_bound), the calls are a prefix of the packet list ending at the first signature (parser_calls_prefix, parser_calls_faithful), and the result depends on the parser only through its answers on such slices (parse_depends_on_slices); model tied through the guarded hook pgp_split_packets and, for the first-signature rule, C02's sigpkts correspondence. The correspondence also drains files() past errors (iterator must end). Memory as statements (Props/C04Alloc.lean, Header::parse as an allocation account that also covers REJECTED inputs; the argument of reserve_exact and the initial capacity of the read buffer are scraped from header.rs, tools/gen/alloc_sites.py): reserve_arg_reading (the argument is min(count, bytes left), no overflow in the widths of the code), buf_grows_with_input (Vec::new + take(size_rest).read_to_end), reserved_le_input (EVERY byte string: nothing sized up front, buffer <= input, every reservation <= 8 bytes per store byte, at most one per entry, largest single request <= 8 x input), package_requests_le_input (the same for both headers of Package::parse), acct_of_accepted, decode_kept_le (<= 24 bytes kept per store byte per entry), kept_le_quadratic / live_le (kept data <= 24 x entries x store). A LINEAR bound on the kept data is FALSE of the current code and proved so: overlap_accepted (N entries over the same S store bytes are accepted and keep N x S bytes), linear_bound_refuted (every K < 2^26), harness_limit_refuted (the instance replayed on the real code: 16.5 KB in, 4 MiB kept; verdict class alloc-kept-quadratic). No runaway is now a theorem: iterator_no_runaway — for EVERY behaviour of the payload stream (any decompressor state, any position after an error) a files() iterator over n header files hands out at most n items, collect() ends within n + 1 calls and the iterator is fused from then on (FileIterator::next as a state machine, Model/FileIter.lean); collectMem_total: the items after an error are values or errors too. The drained iteration of uncompressed payloads is predicted exactly (iter=<items>:<Ok/Err classes>:<hash>) from the accessor model's file list and the in-memory stream positions every error path leaves.",
     "level_note": "Trusted: Lean kernel; model fidelity as exercised (parse ok/err class compared on every case); verify_digests / verify_signature / cpio totality "
                   "are proved in C03 / C02 / C07's models; dependencies are exercised only.",
 }
